@@ -251,6 +251,61 @@ static int k_trsv(const case_t *c, rng_t *rng, csc_t *G)
     return 0;
 }
 
+/* ?gscon called directly with every documented spelling of the norm letter on the factors of a real factorization */
+static int k_gscon(const case_t *c, rng_t *rng, csc_t *G)
+{
+    (void)rng;
+    int_t n = G->n;
+    int nprocs = (int)cint(c, "np", 1);
+    SuperMatrix A, AC, L, U;
+    superlumt_options_t opt; Gstat_t Gstat;
+    int_t *perm_c = xmalloc((n + 1) * sizeof(int_t)), *perm_r = xmalloc((n + 1) * sizeof(int_t));
+    int_t info = 0;
+    CREATE_COMPCOL(&A, n, n, G->nnz, G->val, G->rowind, G->colptr, SLU_NC, SLU_DT, SLU_GE);
+    get_perm_c((int)cint(c, "ord", 0), &A, perm_c);
+    StatAlloc(n, nprocs, hx_ienv[1], hx_ienv[2], &Gstat); StatInit(n, nprocs, &Gstat);
+    GSTRF_INIT(nprocs, DOFACT, NOTRANS, NO, hx_ienv[1], hx_ienv[2], 1.0, NO, 0.0, perm_c, perm_r, NULL, 0, &A, &AC, &opt, &Gstat);
+    GSTRF(&opt, &AC, perm_r, &L, &U, &Gstat, &info);
+    jo_int("info", info); jo_int("n", n);
+    ref_t *Gd = csc_dense(G), *Gi = xmalloc((size_t)n * n * sizeof(ref_t) + 16);
+    if (info == 0 && !ref_inverse(Gd, n, Gi)) {
+        static const char *letters[] = {"1", "O", "o", "I", "i"};
+        for (int q = 0; q < 5; ++q) {
+            int one = q < 3;
+            /* ||M||_1 = max column sum, ||M||_inf = max row sum (column-major dense arrays) */
+            ld an = 0, ain = 0, s_en = 0, mincol = 1e4900L;
+            for (int_t a = 0; a < n; ++a) {
+                ld sa = 0, si = 0;
+                for (int_t b = 0; b < n; ++b) {
+                    sa += one ? rabs(Gd[(size_t)a * n + b]) : rabs(Gd[(size_t)b * n + a]);
+                    si += one ? rabs(Gi[(size_t)a * n + b]) : rabs(Gi[(size_t)b * n + a]);
+                }
+                if (sa > an) an = sa; if (si > ain) ain = si; if (si < mincol) mincol = si;
+            }
+            if (one) { for (int_t i = 0; i < n; ++i) { ref_t s = 0; for (int_t j = 0; j < n; ++j) s += Gi[(size_t)j * n + i]; s_en += rabs(s) / n; } }
+            else { for (int_t j = 0; j < n; ++j) { ref_t s = 0; for (int_t i = 0; i < n; ++i) s += conjl(Gi[(size_t)j * n + i]); s_en += rabs(s) / n; } }
+            ld kappa = an * ain;
+            if (kappa * (ld)n * UROUND > 1e-3L) continue;
+            char nm[2] = { letters[q][0], 0 };
+            real_t anorm = LANGS(nm, &A), rcond = (real_t)-1; int_t ginfo = -99;
+            if (fabsl((ld)anorm - an) > 8.0L * n * UROUND * an) jo_fail("C19|langs-mismatch", "?langs('%s') = %.9g, dense definition %.9Lg", nm, (double)anorm, an);
+            GSCON(nm, &L, &U, anorm, &rcond, &ginfo);
+            ld lo = 1.0L / kappa, delta = 8.0L * n * UBOUND * kappa, hi2 = 1.0L / (an * (mincol < s_en ? mincol : s_en));
+            if (delta > 0.5L) delta = 0.5L;
+            char key[64];
+            if (ginfo != 0) { snprintf(key, sizeof key, "C12|gscon-info|%s", nm); jo_fail(key, "?gscon('%s') returned info = %ld", nm, (long)ginfo); continue; }
+            if ((ld)rcond < lo * (1.0L - delta) * (1.0L - 64 * UROUND)) { snprintf(key, sizeof key, "C12|rcond-below-lower-bound|gscon-%s", nm); jo_fail(key, "?gscon('%s'): rcond = %.6e below 1/kappa = %.6Le", nm, (double)rcond, lo); }
+            else if ((ld)rcond > hi2 * (1.0L + delta) * (1.0L + 64 * UROUND)) { snprintf(key, sizeof key, "C12|rcond-above-any-estimate|gscon-%s", nm); jo_fail(key, "?gscon('%s'): rcond = %.6e exceeds every admissible estimate %.6Le", nm, (double)rcond, hi2); }
+            else jo_int("gscon_judged", 1);
+        }
+    }
+    free(Gd); free(Gi);
+    if (info >= 0 && info <= n) { Destroy_SuperNode_SCP(&L); Destroy_CompCol_NCP(&U); }
+    pxgstrf_finalize(&opt, &AC); StatFree(&Gstat); Destroy_SuperMatrix_Store(&A);
+    free(perm_c); free(perm_r);
+    return 0;
+}
+
 int cmd_kern(const case_t *c)
 {
     rng_t rng = { (uint64_t)cint(c, "seed", 1) * 2654435761ULL + 99 };
@@ -265,6 +320,7 @@ int cmd_kern(const case_t *c)
     else if (!strcmp(sub, "langs")) k_langs(c, &G);
     else if (!strcmp(sub, "convert")) k_convert(c, &rng, &G);
     else if (!strcmp(sub, "trsv")) k_trsv(c, &rng, &G);
+    else if (!strcmp(sub, "gscon")) k_gscon(c, &rng, &G);
     else jo_str("error", "unknown sub");
     jo_end();
     csc_free(&G);
